@@ -1271,7 +1271,7 @@ func suiteC08(c *Ctx) {
 			switch g.pick(6) {
 			case 5:
 				// something that is not the terminator after the last '>' (a comment may stand in between)
-				junk := []string{"...", `"a b"`, "[ 2 ]", "5x", ">", "h->e", "W", "x[1]", "0x1F"}[g.pick(9)]
+				junk := []string{"...", `"a b"`, "5x", ">", "h->e", "W", "0x1F"}[g.pick(7)]
 				toks = append(toks[:len(toks)-1], junk, ".")
 			case 0:
 				j := g.pick(len(toks))
@@ -1287,6 +1287,29 @@ func suiteC08(c *Ctx) {
 				j := g.pick(len(toks))
 				toks = append(toks[:j], append([]string{"<I1 1000 x x>"}, toks[j:]...)...)
 			}
+		}
+		// a name directly in front of an opening bracket is one token when nothing stands between them and two
+		// tokens otherwise: such a sequence (it only arises from the replacements above) is not a layout question
+		merges := false
+		inText := false
+		for j := 0; j+1 < len(toks); j++ {
+			if toks[j] == "<" {
+				inText = true
+			} else if toks[j] == "." {
+				inText = false
+			}
+			isType := false
+			for _, ty := range smlTypes {
+				if strings.EqualFold(toks[j], ty) {
+					isType = true
+				}
+			}
+			if inText && j > 0 && !(toks[j-1] == "<" && isType) && strings.HasPrefix(toks[j+1], "[") && identTailRe.MatchString(toks[j]) {
+				merges = true
+			}
+		}
+		if merges {
+			continue
 		}
 		a := layout(g, toks, layoutStyles[0])
 		st := layoutStyles[1+g.pick(len(layoutStyles)-1)]
@@ -1596,6 +1619,8 @@ var warnTexts = []string{
 	"S5F1 H->E <L <U2 q> ...> .\n",
 	"S6F1 <A \"no direction\"> .\n",
 }
+
+var identTailRe = regexp.MustCompile(`[A-Za-z0-9_\]]$`)
 
 var endSuffixes = []string{"\x1a", "\x1a\n", "\n\x1a", "\x00", "\x04", " \x1a ", "\x1a\x1a"}
 
